@@ -200,7 +200,7 @@ fn states<const D: usize>(rng: &mut Rng, count: usize) -> Vec<World<D>> {
 
 fn run_d<const D: usize>(cfg: &Cfg, rng: &mut Rng, out: &mut Out) {
     let thorough = cfg.tier == "thorough";
-    let pool = states::<D>(rng, if thorough { 6 } else { 2 });
+    let pool = states::<D>(rng, if thorough { 6 } else { 3 });
     let ords: &[usize] = if thorough { &[0, 1, 2] } else { &[0, 1] };
     let mut n = 0usize;
     for (si, w) in pool.iter().enumerate() {
